@@ -125,6 +125,24 @@ static void b_print_opt(void)
 					   "each section instance is printed once, in order, under the same effective filter, one indentation level deeper");
 	if (k_pf && g_pf_calls > 0) CHECK("C19", g_pf_opt == &o && g_pf_fp == &g_fp_obj, "the print callback receives this option and this stream");
 }
+/* an annotation of several lines is written verbatim between the comment marks (C15 C05: it is read back as it was) */
+char in_comment[4];
+void h_print_comment(void)
+{
+	cfg_opt_t o; cfg_value_t v, *vp = &v; unsigned char want[OUTMAX]; unsigned wn = 0; int rc, indent;
+	memset(&o, 0, sizeof o); o.name = "o"; o.type = CFGT_INT; o.flags = CFGF_COMMENTS; o.nvalues = 1; o.values = &vp; v.number = 0;
+	in_comment[0] = nondet_char(); in_comment[1] = nondet_char(); in_comment[2] = nondet_char(); in_comment[3] = 0;
+	o.comment = in_comment;
+	indent = nondet_int(); __CPROVER_assume(indent >= 0 && indent <= 2);
+	out_reset(); g_npv_calls = 0;
+	rc = cfg_opt_print_pff_indent(&o, &g_fp_obj, NULL, indent);
+	wn = spo_indent(want, wn, indent); wn = spo_lit(want, wn, "/* ");
+	for (unsigned i = 0; i < 3 && in_comment[i]; i++) want[wn++] = (unsigned char)in_comment[i];
+	wn = spo_lit(want, wn, " */\n");
+	wn = spo_indent(want, wn, indent); want[wn++] = 'o'; want[wn++] = '='; want[wn++] = M_VALUE; want[wn++] = '0'; want[wn++] = '\n';
+	CHECK("C15,C05,C19", rc == CFG_SUCCESS && out_equals(want, wn), "an annotation is written verbatim between the comment marks, whatever bytes (newlines included) it holds, before its option");
+	CANARY("print_comment");
+}
 #define PO(t, f, n, pf, c, sn) do { k_type = (t); k_flags2 = (f); k_n = (n); k_pf = (pf); k_comment = (c); k_strnull = (sn); b_print_opt(); } while (0)
 void h_print_opt(void)
 {
